@@ -273,6 +273,14 @@ def run(repo, rep, tier):
             self_slot_sinks(repo, rep, ck, models, c, name, "R6.4", r4)
     # ---------------------------------------------------------------- R6.1 purity
     purity(repo, rep, r1, ck, prims, models)
+    # mutable default arguments anywhere in the package (hasKeys(optional=set()), bin_entries(xvalues=[]), ...)
+    hits, checked = mutable_default_writes(repo)
+    for _ in range(checked - len({(h[0].construct, h[1]) for h in hits})):
+        r1.ob(True)
+    for fi, p, n, what in hits:
+        r1.ob(False, f"{fi.qualname}: default `{p}` modified")
+        rep.finding("R6.1", fi, n, f"{what} modifies the mutable default argument `{p}` (shared by every call that relies on the default): "
+                    f"state leaks from one call into the next", stmt=f"mutable default {p} written")
     # ---------------------------------------------------------------- R6.5
     quantity_names(repo, rep, r5, prims, models)
 
@@ -432,6 +440,65 @@ def purity(repo, rep, r1, ck, prims, models):
                 if bad is not None:
                     rep.finding("R6.1", f, bad, f"the mutable default argument `{p}` is modified: the change persists across calls",
                                 stmt=f"mutable default {p} written")
+
+
+def mutable_default_writes(repo):
+    """[(FuncInfo, param, node, description)] for every function of the package that modifies a mutable default argument
+    (directly or through a plain local alias).  Nested functions included."""
+    out = []
+    checked = 0
+    for mod in repo.modules.values():
+        for fn in ast.walk(mod.tree):
+            if not isinstance(fn, (ast.FunctionDef, ast.AsyncFunctionDef)):
+                continue
+            par = getattr(fn, "_parent", None)
+            cls = mod.classes.get(par.name) if isinstance(par, ast.ClassDef) and par.name in mod.classes else None
+            fi = FuncInfo(fn, mod, cls)
+            muts = {}
+            for p, d in fi.defaults().items():
+                if isinstance(d, (ast.List, ast.Dict, ast.Set)) or (
+                        isinstance(d, ast.Call) and isinstance(d.func, ast.Name) and d.func.id in ("set", "dict", "list", "defaultdict") and not d.args):
+                    muts[p] = d
+            if not muts:
+                continue
+            for p in muts:
+                checked += 1
+                aliases = {p}
+                rebound = False
+                changed = True
+                while changed:
+                    changed = False
+                    for n in walk_local_stmt(fn):
+                        if isinstance(n, ast.Assign) and isinstance(n.value, ast.Name) and n.value.id in aliases:
+                            for t in n.targets:
+                                if isinstance(t, ast.Name) and t.id not in aliases:
+                                    aliases.add(t.id)
+                                    changed = True
+                for n in walk_local_stmt(fn):
+                    hit = None
+                    if isinstance(n, ast.AugAssign):
+                        t = n.target
+                        base = t
+                        while isinstance(base, ast.Subscript):
+                            base = base.value
+                        if isinstance(base, ast.Name) and base.id in aliases:
+                            hit = f"`{ast.unparse(n)}`"
+                    elif isinstance(n, ast.Assign):
+                        for t in n.targets:
+                            if isinstance(t, ast.Subscript):
+                                base = t
+                                while isinstance(base, ast.Subscript):
+                                    base = base.value
+                                if isinstance(base, ast.Name) and base.id in aliases:
+                                    hit = f"`{ast.unparse(n)}`"
+                    elif isinstance(n, ast.Call) and isinstance(n.func, ast.Attribute) and n.func.attr in MUTATING_CALLS | {"union_update", "intersection_update", "difference_update"} \
+                            and isinstance(n.func.value, ast.Name) and n.func.value.id in aliases:
+                        hit = f"`{ast.unparse(n)[:60]}`"
+                    if hit:
+                        # a parameter that is re-bound to a fresh object before (`if x is None: x = set()` style) is a different matter:
+                        # only report when the default object itself can reach the write: the parameter is not unconditionally re-bound
+                        out.append((fi, p, n, hit))
+    return out, checked
 
 
 def quantity_names(repo, rep, r5, prims, models):
